@@ -98,6 +98,7 @@ func prepareSecTape(it *SecItem, ks *sut.KeySet, dir string, markers map[string]
 		func() error { return inst.FS.Chown(f2, 7654321, 7654322) },
 		func() error { return inst.FS.Chtimes(f1, time.Unix(1234567890, 0), time.Unix(1234567891, 0)) },
 		func() error { return inst.FS.Rename(f2, d+"/"+markers["renamed"]) },
+		func() error { return inst.FS.SymlinkIfPossible(f1, d+"/"+markers["link"]) },
 		func() error { return writeAll(inst, "/"+markers["gone"], c2) },
 		func() error { return inst.FS.Remove("/" + markers["gone"]) },
 	}
@@ -141,7 +142,7 @@ func runSec(it *SecItem, ks *sut.KeySet, workRoot string) (res SecResult) {
 		return "MK" + hex.EncodeToString(h[:9])
 	}
 	markers := map[string]string{"dir": mk("dir"), "file": mk("file"), "file2": mk("file2"), "content": mk("content") + mk("c-more"),
-		"content2": mk("content2") + mk("c2-more"), "renamed": mk("renamed"), "gone": mk("gone")}
+		"content2": mk("content2") + mk("c2-more"), "renamed": mk("renamed"), "gone": mk("gone"), "link": mk("link")}
 	inst, files, err := prepareSecTape(it, ks, dir, markers)
 	if err != nil {
 		res.Infra = "prepare: " + err.Error()
@@ -353,6 +354,17 @@ func runSec(it *SecItem, ks *sut.KeySet, workRoot string) (res SecResult) {
 		}
 		if s, ok := inner.PAXRecords["STFS.Signature"]; ok {
 			forgeries = append(forgeries, forgery{"reused-signature", seal(wrapWithSig(evil, str(s)))})
+			// the signed record replayed verbatim, with extra UNSIGNED action records next to it
+			for _, extra := range []map[string]string{
+				{"STFS.ReplacesName": "/" + markers["dir"] + "/" + markers["renamed"], "STFS.Action": "UPDATE", "STFS.Version": "1"},
+				{"STFS.Action": "DELETE", "STFS.Version": "1"},
+			} {
+				w := &tar.Header{Format: tar.FormatPAX, Size: 0, PAXRecords: map[string]string{"STFS.EmbeddedHeader": inner.PAXRecords["STFS.EmbeddedHeader"], "STFS.Signature": s}}
+				for k, v := range extra {
+					w.PAXRecords[k] = v
+				}
+				forgeries = append(forgeries, forgery{"replayed-signed-record-with-unsigned-pax", seal(w)})
+			}
 			// edited embedded header, signature kept
 			var emb tar.Header
 			if json.Unmarshal([]byte(inner.PAXRecords["STFS.EmbeddedHeader"]), &emb) == nil {
